@@ -24,7 +24,7 @@ COMPONENTS = {"real": ["ECAgent.Core.Environment.get_agents / get_random_agent /
                        "Agent.has_component", "Model.random", "SpaceWorld (some runs)"],
               "stub": ["component classes and agents are harness-defined; global random / numpy.random are perturbed"]}
 PROBES = ["tag_zero_filter", "template_and_tag", "nobody_matches", "partial_template_match", "returned_list_mutated",
-          "reach_all_members", "same_seed_repeat", "type_nobody_has", "spatial_world", "default_tag_agent", "retag_while_resident"]
+          "reach_all_members", "same_seed_repeat", "type_nobody_has", "spatial_world", "default_tag_agent", "retag_while_resident", "model_lifecycle_op", "subclass_component_only"]
 TECHNIQUE = "deterministic simulation: filter queries inside seeded add/remove histories vs a list-comprehension reference; bounded reachability over reseeded model generators; ambient RNG perturbation between picks"
 LEVEL_TEXT = ("Seeded search over populations, histories, templates and tag filters; every listing must equal the reference filter "
               "(identity, joining order, fresh list), every pick must be a member, every shuffle a permutation, nothing may "
@@ -54,6 +54,10 @@ class T4(Component):   # nobody ever has this one
     pass
 
 
+class T5(T0):          # a subclass of T0: carrying T5 is NOT carrying T0 (components are keyed by their exact class)
+    pass
+
+
 TYPES = [T0, T1, T2, T3, T4]
 TAGS = [None, 0, 1, 2, 7]
 
@@ -68,7 +72,8 @@ def gen_query(rng):
 def generate(rng, tier):
     pool = []
     for i in range(rng.randint(1, 16 if tier == "thorough" else 10)):
-        pool.append({"id": f"a{i}", "comps": sorted(rng.sample(range(4), rng.randint(0, 4))), "tag": rng.choice([0, 1, 2, 3, 4])})
+        pool.append({"id": f"a{i}", "comps": sorted(rng.sample(range(4), rng.randint(0, 4))), "tag": rng.choice([0, 1, 2, 3, 4]),
+                     "sub": rng.random() < 0.2})
     ops = []
     for _ in range(rng.randint(0, 5)):
         ops.append({"op": "add", "k": rng.randrange(len(pool))})
@@ -78,8 +83,10 @@ def generate(rng, tier):
             ops.append({"op": "add", "k": rng.randrange(len(pool))})
         elif r < 0.32:
             ops.append({"op": "remove", "k": rng.randrange(len(pool))})
-        elif r < 0.38:
+        elif r < 0.37:
             ops.append({"op": "retag", "k": rng.randrange(len(pool)), "tag": rng.choice([0, 1, 2, 7])})
+        elif r < 0.385:
+            ops.append({"op": "lifecycle", "what": rng.choice(["step", "complete"])})
         else:
             tmpl, tag = gen_query(rng)
             kind = rng.choice(["get", "get", "pick", "pick", "shuffle", "reach", "repeat"])
@@ -115,6 +122,9 @@ def execute(sc, ctx):
             ctx.probe("default_tag_agent")
         for c in spec["comps"]:
             a.add_component(TYPES[c % 4](a, m))
+        if spec.get("sub"):
+            a.add_component(T5(a, m))
+            ctx.probe("subclass_component_only" if 0 not in [c % 4 for c in spec["comps"]] else "subclass_and_base")
         return a
 
     def ref_filter(tmpl, tag):
@@ -157,6 +167,10 @@ def execute(sc, ctx):
             residents.remove(hit[0])
             ctx.event("remove", spec["id"])
             shape.append(["rm", len(residents)])
+            continue
+        if kind == "lifecycle":
+            ctx.expect_ok("lifecycle", m.complete if op["what"] == "complete" else m.execute)
+            ctx.probe("model_lifecycle_op")
             continue
         if kind == "retag":
             spec = pool[op["k"] % len(pool)]
